@@ -23,6 +23,22 @@ PANIC_API = [
     ("core::slice::<impl [T]>::clone_from_slice", None, "slice::clone_from_slice"),
     ("core::slice::<impl [T]>::chunks", None, "slice::chunks"),
     ("core::str::<impl str>::split_at", None, "str::split_at"),
+    ("std::string::String::truncate", None, "String::truncate"),
+    ("std::string::String::remove", None, "String::remove"),
+    ("std::string::String::insert", None, "String::insert"),
+    ("std::string::String::insert_str", None, "String::insert_str"),
+    ("std::string::String::split_off", None, "String::split_off"),
+    ("std::string::String::drain", None, "String::drain"),
+    ("std::string::String::replace_range", None, "String::replace_range"),
+    ("std::vec::Vec::<T, A>::truncate", None, None),
+    ("core::slice::<impl [T]>::chunks_exact", None, "slice::chunks_exact"),
+    ("core::slice::<impl [T]>::windows", None, "slice::windows"),
+    ("core::slice::<impl [T]>::rotate_left", None, "slice::rotate_left"),
+    ("core::slice::<impl [T]>::rotate_right", None, "slice::rotate_right"),
+    ("core::slice::<impl [T]>::swap", None, "slice::swap"),
+    ("core::array::<impl [T; N]>::from_slice", None, None),
+    ("generic_array::GenericArray::<T, N>::from_slice", None, "GenericArray::from_slice"),
+    ("generic_array::GenericArray::<T, N>::clone_from_slice", None, "GenericArray::clone_from_slice"),
     ("std::cell::RefCell::<T>::borrow", None, "RefCell::borrow"),
     ("std::cell::RefCell::<T>::borrow_mut", None, "RefCell::borrow_mut"),
     ("std::ops::Add::add", "std::time::", "time + duration"),
